@@ -21,8 +21,8 @@ func Recv2[C ~chan T | ~<-chan T, T any](site string, c C) (T, bool) {
 // Send is `c <- v`.
 func Send[C ~chan T | ~chan<- T, T any](site string, c C, v T) {
 	t := Pre(site)
+	defer Post(t)
 	c <- v
-	Post(t)
 }
 
 // Sender is the typed handle used for instrumented send statements: the element
@@ -36,8 +36,8 @@ func Ch[C ~chan T | ~chan<- T, T any](c C) Sender[T] { return Sender[T]{c: (chan
 // Send is `c <- v`.
 func (s Sender[T]) Send(site string, v T) {
 	t := Pre(site)
+	defer Post(t) // also when the send panics (channel closed meanwhile): park before unwinding further
 	s.c <- v
-	Post(t)
 }
 
 // Close is `close(c)`.
